@@ -68,7 +68,10 @@ def dependency_frontier(facts, entry_fns):
     for p, f in facts.fns.items():
         if f.get("impl_trait"):
             impls.setdefault(f["impl_trait"] + "::" + f["name"], []).append(p)
-    uniq = {k: v[0] for k, v in impls.items() if len(v) == 1}
+    # only traits of this crate: a call of a std trait method (`x / d` on usize) is std's impl, whatever single impl the
+    # crate itself happens to have for that trait
+    uniq = {k: v[0] for k, v in impls.items()
+            if len(v) == 1 and not k.startswith(("std::", "core::", "alloc::", "num_traits::"))}
 
     def callees(p):
         out = set()
